@@ -7,7 +7,7 @@ PROPERTY = "C04"
 SHARDED_GEN = False
 RULE = ("cases = one statement whose operand is a symbol or a two-term expression (term op term, op in + - * /) in each operand position "
         "{imm8, imm16, plain / forced-direct / forced-extended memory, [extended indirect], constant index offset (direct and indirect), "
-        "numeric PCR offset, EQU, FCB, FDB, RMB} with terms from {literal decimal / $hex, EQU symbol defined before or after use and "
+        "numeric PCR offset, EQU, FCB, FDB, RMB, ORG (constant terms only; judged on the reported origin and the first label's address)} with terms from {literal decimal / $hex, EQU symbol defined before or after use and "
         "spelled decimal / $h / $hh / $hhhh / %bin / 'c, label before use, label after use}, operand values chosen to hit results 0, "
         "255/256, 32767/32768, 65535/65536, negative and division by zero. Oracle R2: the generator's own AST is evaluated with Python "
         "integers (EQU symbol -> its constant, label -> its listing address, truncating /) and compared with the value decoded by R1 "
@@ -17,7 +17,7 @@ RULE = ("cases = one statement whose operand is a symbol or a two-term expressio
         "all variants). distinct_nontrivial = distinct accepted statements whose decoded value was compared.")
 ASSUMPTIONS = ["expression terms are spelled in decimal or $hex (the documented expression grammar); EQU definitions use every spelling",
                "label addresses are read from the listing", "reference decoder R1"]
-POSITIONS = ["imm8", "imm16", "mem.plain", "mem.dir", "mem.ext", "extind", "idx.const", "idx.const.ind", "pcr.num", "equ", "fcb", "fdb", "rmb"]
+POSITIONS = ["imm8", "imm16", "mem.plain", "mem.dir", "mem.ext", "extind", "idx.const", "idx.const.ind", "pcr.num", "equ", "fcb", "fdb", "rmb", "org"]
 WIDTH = {"imm8": 8, "mem.dir": 8, "fcb": 8}
 ORGS = [0x10, 0x1000, 0x7FF0, 0xFFD0]
 
@@ -95,8 +95,10 @@ def build(pos, left, op, right, org, r, single=None):
     mn, opnd = {"imm8": ("LDA", "#" + expr), "imm16": ("LDX", "#" + expr), "mem.plain": ("LDA", expr), "mem.dir": ("LDA", "<" + expr),
                 "mem.ext": ("LDA", ">" + expr), "extind": ("LDA", "[" + expr + "]"), "idx.const": ("LDA", expr + ",Y"),
                 "idx.const.ind": ("LDX", "[" + expr + ",U]"), "pcr.num": ("LEAX", expr + ",PCR"), "equ": ("EQU", expr), "fcb": ("FCB", expr),
-                "fdb": ("FDB", expr), "rmb": ("RMB", expr)}[pos]
+                "fdb": ("FDB", expr), "rmb": ("RMB", expr), "org": ("ORG", expr)}[pos]
     label = "RES" if pos == "equ" else ""
+    if pos == "org":
+        return pre + [" ORG %s\n" % expr, "LB NOP\n", "ZZ9 NOP\n", "LA NOP\n"] + post, len(pre), expr, equs, mn
     lines = pre + [" ORG $%X\n" % org, "LB NOP\n", "%s %s %s\n" % (label, mn, opnd), "ZZ9 NOP\n", "LA NOP\n"] + post
     return lines, len(pre) + 2, expr, equs, mn
 
@@ -109,7 +111,7 @@ def gen_cases(tier, seed):
         pairs = term_pairs(r, thorough)
         for left, right in pairs:
             for op in "+-*/":
-                if "label" in (left[0], right[0]) and pos in ("rmb", "pcr.num", "idx.const", "idx.const.ind"):
+                if "label" in (left[0], right[0]) and pos in ("rmb", "pcr.num", "idx.const", "idx.const.ind", "org"):
                     continue          # label-derived sizes/offsets: label,X is outside the grammar the tool accepts; label,PCR is C03's
                 org = r.choice(ORGS) if pos != "rmb" else 0x1000
                 lines, target, expr, equs, mn = build(pos, left, op, right, org, r)
@@ -124,6 +126,13 @@ def gen_cases(tier, seed):
                     k += 1
                     yield {"id": "%s/sym/%s/%d" % (pos, order, k), "pos": pos, "lines": lines, "target": target, "left": ("equ", v, order), "right": None, "op": "",
                            "equs": equs, "mn": mn, "expr": expr}
+        if pos == "org":
+            # an origin that depends on a label cannot be known before layout: never silently ignored
+            for lab in ("LB", "LA"):
+                for expr in (lab, lab + "+1", "1+" + lab):
+                    k += 1
+                    yield {"id": "org/label/%s" % expr, "pos": "org-label", "lines": [" ORG %s\n" % expr, "LB NOP\n", "LA NOP\n"], "target": 0,
+                           "left": ("label", lab), "right": None, "op": "", "equs": {}, "mn": "ORG", "expr": expr}
         if pos in ("imm16", "mem.plain", "mem.ext", "extind", "fdb", "equ"):
             for lab in ("LB", "LA"):
                 for org in ORGS:
@@ -157,6 +166,16 @@ def run_case(case, ctx):
     if o.outcome not in ("ok", "diag"):
         ctx.outcome("not-ok:" + o.outcome)
         ctx.violation("expr", pos, "NOT-ACCEPTED:%s:%s@%s" % (o.outcome, o.exc, o.where), wit, tr)
+        return
+    if pos == "org-label":
+        # accepted only if the label really ends up at the address the ORG names (it cannot: the label follows the ORG)
+        if o.outcome == "diag":
+            ctx.outcome("org-label-rejected")
+            ctx.cell("org-label-rejected")
+            ctx.nontriv(stmt)
+        else:
+            ctx.outcome("org-label-accepted")
+            ctx.violation("expr", "org", "LABEL-ORIGIN-ACCEPTED", dict(wit, origin=o.origin), tr)
         return
     # labels' addresses: from the listing when accepted; a rejected program is judged only where the expected class is decidable without them
     labels = {}
@@ -202,6 +221,9 @@ def run_case(case, ctx):
     if pos == "rmb" and (val < 0 or val > 4000):
         ctx.outcome("skipped-rmb-size")
         return
+    if pos == "org" and o.outcome == "diag" and val % 65536 > 0xFFFD:
+        ctx.outcome("skipped-origin-leaves-no-room")       # three NOPs follow the ORG
+        return
     if o.outcome == "diag":
         if in16:
             ctx.outcome("rejected-valid")
@@ -218,6 +240,10 @@ def run_case(case, ctx):
     got = None
     if pos == "equ":
         got = asmmon.parse_symbols(o.symbols).get("RES")
+    elif pos == "org":
+        first = next((s_["addr"] for s_ in o.stmts if s_["label"] == "LB"), None)
+        got = o.origin if o.origin == first else None
+        b_ = bytes([0x12] * 3) if bytes(o.image or b"") == b"\x12\x12\x12" else b""
     elif pos == "fcb":
         got = b_[0] if len(b_) == 1 else None
     elif pos == "fdb":
